@@ -319,4 +319,65 @@ def expectedAssigns : List (String × String × String) :=
    ("SquaredL2Loss.hessian", "eval_fn", "lambda x: 2 * self.scale * A.adj(W(A(x)))"),
    ("SquaredL2Loss.hessian", "adj_fn", "lambda x: 2 * self.scale * A.adj(W(A(x)))")]
 
+/-- decorator lists of the evaluation / prox methods, as in the source -/
+def expectedDecorators : List (String × List String) :=
+  [("Functional.__call__", []),
+   ("Functional.prox", []),
+   ("Functional.conj_prox", []),
+   ("ScaledFunctional.__call__", []),
+   ("ScaledFunctional.prox", []),
+   ("SeparableFunctional.__call__", []),
+   ("SeparableFunctional.prox", []),
+   ("FunctionalSum.__call__", []),
+   ("ZeroFunctional.__call__", []),
+   ("ZeroFunctional.prox", []),
+   ("Loss.__call__", []),
+   ("Loss.prox", []),
+   ("SquaredL2Loss.__call__", []),
+   ("SquaredL2Loss.prox", []),
+   ("PoissonLoss.__call__", []),
+   ("SquaredL2AbsLoss.__call__", []),
+   ("SquaredL2AbsLoss.prox", []),
+   ("SquaredL2SquaredAbsLoss.__call__", []),
+   ("SquaredL2SquaredAbsLoss.prox", []),
+   ("L0Norm.__call__", []),
+   ("L0Norm.prox", ["staticmethod", "jit"]),
+   ("L1Norm.__call__", []),
+   ("L1Norm.prox", ["staticmethod"]),
+   ("SquaredL2Norm.__call__", []),
+   ("SquaredL2Norm.prox", []),
+   ("L2Norm.__call__", []),
+   ("L2Norm.prox", []),
+   ("L21Norm.__call__", []),
+   ("L21Norm.prox", []),
+   ("L1MinusL2Norm.__call__", []),
+   ("L1MinusL2Norm._prox_vamx_ge_thresh", ["staticmethod"]),
+   ("L1MinusL2Norm._prox_vamx_le_alpha", ["staticmethod"]),
+   ("L1MinusL2Norm._prox_vamx_gt_alpha", ["staticmethod"]),
+   ("L1MinusL2Norm._prox_vamx_gt_0", ["staticmethod"]),
+   ("L1MinusL2Norm.prox", []),
+   ("HuberNorm._call_sep", []),
+   ("HuberNorm._call_nonsep", []),
+   ("HuberNorm.__call__", []),
+   ("HuberNorm._prox_sep", []),
+   ("HuberNorm._prox_nonsep", []),
+   ("HuberNorm.prox", []),
+   ("NuclearNorm.__call__", []),
+   ("NuclearNorm.prox", []),
+   ("NonNegativeIndicator.__call__", []),
+   ("NonNegativeIndicator.prox", []),
+   ("L2BallIndicator.__call__", []),
+   ("L2BallIndicator.prox", []),
+   ("SetDistance.__call__", []),
+   ("SetDistance.prox", []),
+   ("SquaredSetDistance.__call__", []),
+   ("SquaredSetDistance.prox", []),
+   ("TVNorm._call_operator", []),
+   ("TVNorm.__call__", []),
+   ("TVNorm._prox_operators", []),
+   ("TVNorm._prox_core", ["staticmethod", "partial(jax.jit, static_argnums=(0, 1, 2, 4))"]),
+   ("TVNorm.prox", []),
+   ("ProximalAverage.__call__", []),
+   ("ProximalAverage.prox", [])]
+
 end Scico.ProxCalc.Tables
